@@ -215,6 +215,24 @@ def step(cfg, hist):
                     interior = [l for l in lens[:-1]]
                     if interior != list(range(obs["rows0"] + 1, obs["rows0"] + 1 + len(interior))):
                         r.v("C20/callback-count-terminal/%s" % name, "exactly once per recorded step before the landing", case, observed=dict(lens=lens), expected="consecutive")
+                    else:
+                        # how many of the new rows are ordinary steps?  A twin with the same history takes them without the terminal event (events do not
+                        # influence the steps before the stop); the rows after them belong to the landing and share ONE invocation
+                        w2 = World(cfg)
+                        for op2 in hist[:-1]:
+                            apply_op(w2, op2)
+                        try:
+                            tgt2 = (w2.dtype(TF),) if cfg.get("against") else ()
+                            w2.a.integrate(*tgt2, events=[ev_nonterm], callback=[driver.Budget(20000)])
+                            T2 = [float(x) for x in w2.a.t]
+                            t_ev = T[-1]
+                            dsg = 1.0 if TF > T0 else -1.0
+                            ordinary = len([x for x in T2[obs["rows0"]:] if (t_ev - x) * dsg > 0])
+                            if T2[:obs["rows0"] + ordinary] == T[:obs["rows0"] + ordinary] and new_rows - ordinary >= 1 and len(A) != ordinary + 1:
+                                r.v("C20/callback-count-terminal/%s" % name, "the sub-steps taken to land on a terminal event share one final invocation", case,
+                                    observed=dict(invocations=len(A), ordinary_steps=ordinary, landing_rows=new_rows - ordinary), expected=dict(invocations=ordinary + 1))
+                        except Exception:
+                            pass
             else:
                 if lens != list(range(obs["rows0"] + 1, obs["rows1"] + 1)):
                     r.v("C20/callback-count/%s" % name, "callbacks are invoked exactly once per recorded step", case,
